@@ -939,7 +939,7 @@ ind_harness!(i_base_add_min, ind_base_add(Kind::Min));
 // @stub FnOnceQueue::push_box -> callback invoked at once (queue is a sink here; FIFO is C01/C17)
 // @assume BTreeMap modelled by harness/model/vmap.rs (total-order precondition asserted); single pending timer
 ind_harness!(i_adv_fixed, ind_advance(Kind::Fixed, 70000));
-// @verif prop=C07,C08,C09,C10 tier=quick timeout=2400 mem=14 unwind=5 unwindset=::advance\.1$:5,::advance\.0$:3
+// @verif prop=C07,C08,C09,C10,C05 tier=quick timeout=2400 mem=14 unwind=5 unwindset=::advance\.1$:5,::advance\.0$:3
 // @enc Timers::advance (Max branch) Timers::free_slot Timers::next_expiry
 // @sym any pre-state satisfying INV(max): N, C in (N, N+0x7FFF s], E any (also > 18 h ahead), S1, generation any != 0; target up to 70000 s ahead
 // @bound one advance of <= 70000 s from an arbitrary INV state (inductive step)
@@ -997,7 +997,7 @@ ind_harness!(i_upd_min, ind_update(Kind::Min));
 // @bound one delete (inductive step)
 // @assume BTreeMap modelled by harness/model/vmap.rs
 ind_harness!(i_del_fixed, ind_delete(Kind::Fixed));
-// @verif prop=C09,C10 tier=quick timeout=1200 mem=10 unwind=5
+// @verif prop=C09,C10,C05 tier=quick timeout=1200 mem=10 unwind=5
 // @enc Timers::del_max Timers::del Timers::free_slot Timers::mod_max Timers::max_is_active
 // @sym any INV(max) pre-state; deleted through the Max key or the long-fixed key
 // @bound one delete (inductive step)
